@@ -45,6 +45,8 @@ FAMILIES = {
     "repeat_stmt": lambda n, L, v: wrap((v + " = a + b * c\n") * n),
     "repeat_loop": lambda n, L, v: wrap(("do i = 1, 2\n" + v + " = 1\nend do\n") * n),
     "repeat_nonblock": lambda n, L, v: wrap("".join(["do " + lab(L, i) + " i = 1, 2\n" + lab(L, i) + " " + v + " = 1\n" for i in range(n)])),
+    "repeat_nonblock_comments": lambda n, L, v: wrap("".join(["! loop %d\ndo " % i + lab(L, i) + " i = 1, 2\n" + lab(L, i) + " " + v + " = 1\n" for i in range(n)])),
+    "if_comments": lambda n, L, v: nest(lambda i: "! level %d\nif (a > %d) then\n" % (i, i), lambda i: "end if ! %d\n" % i, n, v + " = 1\n"),
     "expr_chain": lambda n, L, v: wrap(v + " = " + " + ".join(["a%d" % i for i in range(n + 1)]) + "\n"),
     "do_nonblock": lambda n, L, v: nest(lambda i: "do " + lab(L, i) + " i%d = 1, 2\n" % i, lambda i: lab(L, i) + " x%d = 1\n" % i, n, v + " = 1\n"),
     "call_nest": lambda n, L, v: wrap(v + " = " + "f(" * n + "1" + ")" * n + "\n"),
@@ -56,12 +58,12 @@ def units(tier):
     q = tier == "quick"
     us = []
     for fam in FAMILIES:
-        sizes = (1, 2, 4) if q else (1, 2, 4, 8, 16)
+        sizes = (1, 2, 4, 8) if q else (1, 2, 4, 8, 16)
         if fam in KNOWN_EXP:
             sizes = (1, 2, 4)
         for n in sizes:
             for std in ("f2003", "f2008"):
-                us.append(dict(h="grow", fam=fam, n=n, std=std, sym=("labels" if fam in ("do_label", "do_shared", "repeat_nonblock", "do_nonblock") else "name"), cost=n))
+                us.append(dict(h="grow", fam=fam, n=n, std=std, sym=("labels" if fam in ("do_label", "do_shared", "repeat_nonblock", "repeat_nonblock_comments", "do_nonblock") else "name"), cost=n))
     return us
 
 
